@@ -32,7 +32,7 @@ Honest(L) == [i \in 1..L |-> [by |-> i, key |-> i, ctx |-> "a", covers |-> L - i
 Ops == {"none", "transit", "mutbody", "mutsig", "wrongpeer", "replayold",
         "outerflip", "outersigflip", "stripouter",
         "innerflip", "innersigflip", "splicetime", "spliceorigin", "reattribute", "forgeknown", "duprec", "reorder",
-        "skipto", "claimdirect", "renew"}
+        "skipto", "claimdirect", "renew", "wraptwice"}
 NeedsDepth(op) == op \in {"innerflip", "innersigflip", "splicetime", "spliceorigin", "reattribute", "forgeknown", "duprec", "reorder", "skipto"}
 
 (* The chain the victim receives and who delivers it, per operator.  `d` is the depth (2..L) of the     *)
@@ -57,6 +57,9 @@ Received(L, op, d) ==
     [] op = "reorder" -> \* records d and d+1 swapped (each keeps what it genuinely signed)
          [i \in 1..L |-> IF i = 1 THEN Fresh1(L - 1) ELSE IF i = d THEN Honest(L)[d + 1]
                          ELSE IF i = d + 1 THEN Honest(L)[d] ELSE Honest(L)[i]]
+    [] op = "wraptwice" -> \* honest as far as signatures go: the forwarder attaches TWO records of its own (each genuinely signed for
+                           \* this announcement, each covering what hangs below it) - the route must list both, in order
+         [i \in 1..(L + 1) |-> IF i = 1 THEN Fresh1(L) ELSE IF i = 2 THEN Fresh1(L - 1) ELSE Honest(L)[i - 1]]
     [] op = "skipto" -> <<Fresh1(L - d + 1)>> \o SubSeq(Honest(L), d, L)               \* own fresh record + genuine suffix
     [] op = "claimdirect" -> <<Fresh1(0)>>                                            \* own fresh record, nothing below
     [] op = "renew" -> \* honest: the route is already installed from an earlier announcement whose outer record carried other
@@ -83,7 +86,7 @@ OwnFresh(r) == r.by = 1 /\ r.key = 1 /\ r.ctx = "a" /\ r.intact
 PropAccept(L, op, d) ==
   LET ch == Received(L, op, d)
   IN /\ op \notin {"mutbody", "mutsig", "replayold"}
-     /\ \A i \in 1..Len(ch) : (Genuine(ch[i], L) \/ (i = 1 /\ OwnFresh(ch[i]))) /\ ch[i].covers = Len(ch) - i
+     /\ \A i \in 1..Len(ch) : (Genuine(ch[i], L) \/ (i <= (IF op = "wraptwice" THEN 2 ELSE 1) /\ OwnFresh(ch[i]))) /\ ch[i].covers = Len(ch) - i
      /\ (Len(ch) = 0 => Deliverer(L, op) = Origin)
      /\ (Len(ch) > 0 => ch[1].by = Deliverer(L, op))
 Path(L, op, d) == [i \in 1..Len(Received(L, op, d)) |-> Received(L, op, d)[i].by]
@@ -95,7 +98,8 @@ Case(L, op, d, seen) ==
   /\ phase = "start" /\ phase' = "done"
   /\ (seen => op # "replayold")
   /\ (NeedsDepth(op) => d \in 2..L) /\ (~NeedsDepth(op) => d = 0)
-  /\ (op \in {"outerflip", "outersigflip", "stripouter", "claimdirect", "renew"} => L >= 1)
+  /\ (op \in {"outerflip", "outersigflip", "stripouter", "claimdirect", "renew", "wraptwice"} => L >= 1)
+  /\ (op = "wraptwice" => ~seen)
   /\ (op = "renew" => ~seen)
   /\ (op = "reorder" => d < L)
   /\ (op = "forgeknown" => d = 2)       \* directly below the adversary's own record: nothing else in the chain is disturbed
